@@ -322,8 +322,32 @@ pub fn w_leaf() -> BoxedStrategy<WVal> {
 }
 
 fn dedup_names(ms: Vec<WAttr>) -> Vec<WAttr> {
+    // unique also after the replacement of undecodable octets (two different invalid names may be
+    // read as the same text; which of them wins is not specified)
     let mut seen = std::collections::BTreeSet::new();
-    ms.into_iter().filter(|m| seen.insert(m.name.clone())).collect()
+    ms.into_iter()
+        .filter(|m| {
+            let mut key = String::new();
+            let mut prev = false;
+            for ch in my_lossy(&m.name).chars() {
+                if ch == '\u{fffd}' {
+                    if !prev {
+                        key.push(ch);
+                    }
+                    prev = true;
+                } else {
+                    key.push(ch);
+                    prev = false;
+                }
+            }
+            seen.insert(key)
+        })
+        .collect()
+}
+
+/// attribute names as a peer may send them: mostly valid, sometimes not valid UTF-8
+pub fn attr_name_wire() -> BoxedStrategy<Vec<u8>> {
+    prop_oneof![19 => attr_name(), 1 => octets(24).prop_filter("non-empty", |n| !n.is_empty())].boxed()
 }
 
 pub fn w_val(depth: u32) -> BoxedStrategy<WVal> {
@@ -360,7 +384,7 @@ pub fn w_wide_attr() -> BoxedStrategy<WAttr> {
 
 pub fn w_attr(depth: u32) -> BoxedStrategy<WAttr> {
     let nvals = prop_oneof![5 => Just(1usize), 2 => Just(2usize), 2 => 3usize..=5];
-    (attr_name(), nvals.prop_flat_map(move |n| vec(w_val(depth), n))).prop_map(|(name, values)| WAttr { name, values }).boxed()
+    (attr_name_wire(), nvals.prop_flat_map(move |n| vec(w_val(depth), n))).prop_map(|(name, values)| WAttr { name, values }).boxed()
 }
 
 pub fn w_group(max_depth: u32) -> BoxedStrategy<WGroup> {
